@@ -71,6 +71,8 @@ def call(ex, state, node):
         return Sc(z3.IntVal(0), INT)
     if name in PURE_MATH:
         vs = [smt.real(ex.rvalue(state, a).t) for a in args]
+        if name not in ("sqrt", "sqrtf"):
+            vs = [z3.simplify(v) for v in vs]
         x = vs[0]
         if name in ("sqrt", "sqrtf"):
             ex.oblige(state, "domain-sqrt", node, x >= 0)
